@@ -1,13 +1,13 @@
 package checks
 
 import (
-	crand "crypto/rand"
 	"archive/zip"
 	"bytes"
 	"context"
 	"crypto/ecdsa"
 	"crypto/elliptic"
 	"crypto/rand"
+	crand "crypto/rand"
 	"crypto/tls"
 	"crypto/x509"
 	"crypto/x509/pkix"
@@ -305,8 +305,8 @@ func startProbe(chain tls.Certificate, respond func(first []byte) []byte) (*tlsP
 }
 
 func (p *tlsProbe) setChain(c tls.Certificate) { p.mu.Lock(); p.chain = c; p.mu.Unlock() }
-func (p *tlsProbe) port() int { return p.ln.Addr().(*net.TCPAddr).Port }
-func (p *tlsProbe) close()    { p.ln.Close(); p.wg.Wait() }
+func (p *tlsProbe) port() int                  { return p.ln.Addr().(*net.TCPAddr).Port }
+func (p *tlsProbe) close()                     { p.ln.Close(); p.wg.Wait() }
 
 func makeBundle(host string, port int) (*astra.Bundle, error) {
 	return makeBundleCA(host, port, bundleCA)
